@@ -33,7 +33,7 @@ def exhaustive(tier):
 
 def required(tier):
     return {"pairs_equal_by_model": 3000, "pairs_unequal_by_model": 5000, "hash_checks": 3000,
-            "order_checks": 5000, "transitivity_triples": 5000, "cross_dimension_pairs": 500,
+            "order_checks": 5000, "transitivity_triples": 5000, "cross_dimension_pairs": 500, "cross_dimension_pairs_under_context": 300,
             "bare_number_checks": 40, "kinds_pairs": 6}
 
 
@@ -48,6 +48,7 @@ def shards(tier, seed):
                 "triples": 5000 if tier == "quick" else 40000})
     out.append({"kind": "dimensionless", "name": "dimensionless"})
     out.append({"kind": "cross", "name": "cross", "n": 3000 if tier == "quick" else 40000})
+    out.append({"kind": "cross-context", "name": "cross-context", "n": 600 if tier == "quick" else 8000})
     out.append({"kind": "float", "name": "float", "n": 4000 if tier == "quick" else 60000})
     return out
 
@@ -57,6 +58,7 @@ class Pool:
 
     def __init__(self, name, rec, pint, exact=True):
         self.name, self.rec, self.pint, self.exact = name, rec, pint, exact
+        self.context_active = False   # an enabled context: == across the dimensions it bridges is not judged
         self.items = []   # (label, quantity, (value, dims, exact), kind, units_key)
 
     def add(self, label, q, mv, kind):
@@ -80,6 +82,22 @@ class Pool:
         rec.case((self.name, la, lb), nontrivial=la != lb)
         rec.observe("kinds_pairs", kinds)
         same_dim = va[1] == vb[1]
+        if self.context_active and not same_dim:
+            # with a context enabled == converts through it (a wavelength can equal a frequency there);
+            # the ordering operators must still refuse the pair
+            ops = {}
+            for name in ("lt", "le", "gt", "ge"):
+                try:
+                    ops[name] = getattr(qa, f"__{name}__")(qb)
+                except pint.DimensionalityError:
+                    ops[name] = "DimErr"
+                except Exception as ex:  # noqa: BLE001
+                    ops[name] = "raised:" + type(ex).__name__
+            rec.count("order_checks")
+            rec.count("cross_dimension_pairs_under_context")
+            if any(v != "DimErr" for v in ops.values()):
+                rec.violation("cross-dimension-order-not-refused", dict(w, ops=str(ops)), **fields)
+            return
         nan = any(isinstance(v[0], float) and math.isnan(v[0]) for v in (va, vb))
         exp_eq = (not nan) and qmodel.same_physical(va, vb, tol=F(0) if self.exact else F(1, 10 ** 12))
         rec.count("pairs_equal_by_model" if exp_eq else "pairs_unequal_by_model")
@@ -322,6 +340,29 @@ def run_shard(spec, rec):
             pool.pair(0, 1, la, qa, va, ka, lb, qb, vb, kb, qmodel)
             if i % 1000 == 0:
                 rec.sample({"pool": "cross", "a": la, "b": lb})
+    elif kind == "cross-context":
+        # the same demand with a context enabled that BRIDGES the two dimensions (sp: length / frequency /
+        # energy / wavenumber, boltzmann: temperature / energy, energy: mass / energy)
+        bridged = {"sp": ["nanometer", "micrometer", "angstrom", "terahertz", "hertz", "electron_volt", "joule",
+                          "reciprocal_centimeter", "kayser"],
+                   "boltzmann": ["kelvin", "electron_volt", "joule", "degree_Rankine"],
+                   "energy": ["kilogram", "gram", "joule", "electron_volt", "atomic_mass_constant"]}
+        keys = list(classes)
+        pool_units = [rng.choice(classes[k]) for k in keys]
+        for ctx, special in bridged.items():
+            special = [u for u in special if u in m.units]
+            with ureg.context(ctx):
+                for i in range(spec["n"]):
+                    a, b = rng.sample(special, 2) if i % 2 == 0 else (rng.choice(special), rng.choice(pool_units))
+                    pool = Pool("cross-context", rec, pint)
+                    pool.context_active = True
+                    mk(F(rng.randint(-5, 5)), a, pool)
+                    mk(F(rng.randint(1, 5)), b, pool)
+                    pool.eqm = [[None] * 2 for _ in range(2)]
+                    (la, qa, va, ka), (lb, qb, vb, kb) = pool.items
+                    pool.pair(0, 1, la, qa, va, ka, lb, qb, vb, kb, qmodel)
+                    if i % 500 == 0:
+                        rec.sample({"pool": "cross-context", "context": ctx, "a": la, "b": lb})
     elif kind == "float":
         # float registry: model agreement away from ties, NaN behaviour
         cls = [v for v in classes.values() if len(v) >= 2]
